@@ -1782,4 +1782,478 @@ theorem replacer_on_segments (D U : List Str) (g f : Str) (hD : ∀ s ∈ D, Sim
   simp [urlunsplit]
 
 
+/-! ## `urljoin` on strings with a well-formed origin; T19.2 on strings -/
+
+theorem splitFirst_append (c : Nat) : ∀ (s t : Str), c ∉ s → splitFirst c (s ++ c :: t) = some (s, t)
+  | [], t, _ => by simp [splitFirst]
+  | x :: xs, t, h => by
+    have hx : x ≠ c := fun e => h (by simp [e])
+    simp [splitFirst, hx, splitFirst_append c xs t (fun hm => h (List.mem_cons_of_mem _ hm))]
+
+/-- a scheme and host as `urlsplit`/`urlunsplit`/`urljoin` treat `http://h`: hierarchical scheme, plain ASCII host -/
+structure WFOrigin (sch net : Str) : Prop where
+  sch_ne : sch ≠ []
+  sch_alpha : ∀ c, sch.head? = some c → isAsciiAlpha c = true
+  sch_chars : ∀ c ∈ sch, isSchemeChar c = true ∧ asciiLower c = c
+  sch_rel : sch ∈ usesRelative
+  sch_net : sch ∈ usesNetloc
+  net_ne : net ≠ []
+  net_chars : ∀ c ∈ net, 0x20 < c ∧ c < 0x80 ∧ c ≠ cSlash ∧ c ≠ cQuest ∧ c ≠ cHash ∧ c ≠ 0x5B ∧ c ≠ 0x5D
+
+def originStr (sch net : Str) : Str := sch ++ cColon :: cSlash :: cSlash :: net
+
+theorem schemeChar_facts (c : Nat) (h : isSchemeChar c = true) : 0x20 < c ∧ c ≠ 9 ∧ c ≠ 13 ∧ c ≠ 10 ∧ c ≠ cColon := by
+  simp [isSchemeChar, isAsciiAlpha, isDigit] at h
+  simp only [cColon]
+  omega
+
+theorem filter_id_of {p : Nat → Bool} (s : Str) (h : ∀ c ∈ s, p c = true) : s.filter p = s :=
+  List.filter_eq_self.mpr h
+
+/-- `urlsplit("scheme://host" + path)` for a path of unreserved characters starting with a slash -/
+theorem urlsplit_abs (sch net P d : Str) (w : WFOrigin sch net) (hP : QuoteSafe P) (hs : P.head? = some cSlash) :
+    urlsplit (originStr sch net ++ P) d = .ok { scheme := sch, netloc := net, path := P, query := [], fragment := [] } := by
+  obtain ⟨c0, sch', rfl⟩ : ∃ c0 sch', sch = c0 :: sch' := by
+    cases sch with
+    | nil => exact absurd rfl w.sch_ne
+    | cons a b => exact ⟨a, b, rfl⟩
+  have hc0 := w.sch_alpha c0 (by simp)
+  have fP := fun c hc => quoteSafe_facts c (hP c hc)
+  have hgood : ∀ c ∈ originStr (c0 :: sch') net ++ P, (fun c => decide (c ≠ 9 ∧ c ≠ 13 ∧ c ≠ 10)) c = true := by
+    intro c hc
+    simp only [originStr, List.mem_append, List.mem_cons] at hc
+    simp only [decide_eq_true_eq]
+    rcases hc with ((hc | hc) | hc | hc | hc | hc) | hc
+    · subst hc; have := schemeChar_facts c (w.sch_chars c (by simp)).1; omega
+    · have := schemeChar_facts c (w.sch_chars c (by simp [hc])).1; omega
+    · subst hc; decide
+    · subst hc; decide
+    · subst hc; decide
+    · have := w.net_chars c hc; omega
+    · have := fP c hc; omega
+  have hdrop : (originStr (c0 :: sch') net ++ P).dropWhile (· ≤ 0x20) = originStr (c0 :: sch') net ++ P := by
+    have := (schemeChar_facts c0 (w.sch_chars c0 (by simp)).1).1
+    simp [originStr, List.dropWhile_cons]; omega
+  have hcol : cColon ∉ (c0 :: sch') := fun hm => (schemeChar_facts _ (w.sch_chars _ hm).1).2.2.2.2 rfl
+  have hsplit := splitFirst_append cColon (c0 :: sch') (cSlash :: cSlash :: net ++ P) hcol
+  have hlow : (c0 :: sch').map asciiLower = c0 :: sch' := by
+    rw [List.map_congr_left (g := id)]
+    · simp
+    · intro c hc; exact (w.sch_chars c hc).2
+  have hall : (c0 :: sch').all isSchemeChar = true := by
+    simp only [List.all_eq_true]; intro c hc; exact (w.sch_chars c hc).1
+  have hscheme : splitScheme (originStr (c0 :: sch') net ++ P) = some (c0 :: sch', cSlash :: cSlash :: net ++ P) := by
+    unfold splitScheme originStr
+    have e : c0 :: sch' ++ cColon :: cSlash :: cSlash :: net ++ P = (c0 :: sch') ++ cColon :: (cSlash :: cSlash :: net ++ P) := by
+      simp
+    rw [e, hsplit]
+    simp only [hc0, hall, hlow, and_self, ↓reduceIte]
+  obtain ⟨P', rfl⟩ : ∃ P', P = cSlash :: P' := by
+    cases P with
+    | nil => simp at hs
+    | cons a b => simp at hs; exact ⟨b, by rw [hs]⟩
+  have hnet : netlocOf (cSlash :: cSlash :: net ++ cSlash :: P') = (net, cSlash :: P') := by
+    unfold netlocOf
+    have st := takeWhile_stop (fun c => decide (c ≠ cSlash ∧ c ≠ cQuest ∧ c ≠ cHash)) net cSlash P'
+      (by intro y hy; have := w.net_chars y hy; simp [this.2.2.1, this.2.2.2.1, this.2.2.2.2.1]) (by simp)
+    simp only [cSlash] at st ⊢
+    simp only [splitNetloc, cSlash]
+    exact Prod.ext st.1 st.2
+  have hbr : net.any (fun c => decide (c = 0x5B ∨ c = 0x5D)) = false := by
+    simp only [List.any_eq_false]
+    intro c hc; have := w.net_chars c hc; simp [this.2.2.2.2.2.1, this.2.2.2.2.2.2]
+  have hascii : net.any (· ≥ 0x80) = false := by
+    simp only [List.any_eq_false]
+    intro c hc; have := w.net_chars c hc; simp; omega
+  have hh : cHash ∉ (cSlash :: P') := fun hm => (fP _ hm).2.2.1 rfl
+  have hq : cQuest ∉ (cSlash :: P') := fun hm => (fP _ hm).2.1 rfl
+  unfold urlsplit
+  simp only [hdrop, filter_id_of _ hgood, hscheme, hnet, hbr, hascii, splitFirst_none _ _ hh, splitFirst_none _ _ hq]
+  simp
+
+theorem urlunsplit_abs (sch net P : Str) (w : WFOrigin sch net) (hs : P.head? = some cSlash) :
+    urlunsplit { scheme := sch, netloc := net, path := P, query := [], fragment := [] } = originStr sch net ++ P := by
+  obtain ⟨P', rfl⟩ : ∃ P', P = cSlash :: P' := by
+    cases P with
+    | nil => simp at hs
+    | cons a b => simp at hs; exact ⟨b, by rw [hs]⟩
+  simp [urlunsplit, w.net_ne, w.sch_ne, originStr]
+
+/-- the scheme handed down by `urljoin` is used as it is -/
+theorem urlsplit_simple_dflt (s sch : Str) (hsch : ∀ c ∈ sch, isSchemeChar c = true) (hs : QuoteSafe s)
+    (h2 : s.take 2 ≠ [cSlash, cSlash]) :
+    urlsplit s sch = .ok { scheme := sch, netloc := [], path := s, query := [], fragment := [] } := by
+  have f := fun c hc => quoteSafe_facts c (hs c hc)
+  have hdrop : s.dropWhile (· ≤ 0x20) = s := by
+    cases s with
+    | nil => rfl
+    | cons x xs =>
+      have := (f x (by simp)).2.2.2.1
+      simp [List.dropWhile_cons]; omega
+  have hfilt : s.filter (fun c => c ≠ 9 ∧ c ≠ 13 ∧ c ≠ 10) = s := by
+    apply List.filter_eq_self.mpr
+    intro c hc
+    have := f c hc
+    simp [this.2.2.2.2.1, this.2.2.2.2.2.1, this.2.2.2.2.2.2.1]
+  have hd1 : sch.dropWhile (· ≤ 0x20) = sch := by
+    cases sch with
+    | nil => rfl
+    | cons x xs =>
+      have := (schemeChar_facts x (hsch x (by simp))).1
+      simp [List.dropWhile_cons]; omega
+  have hd2 : sch.reverse.dropWhile (· ≤ 0x20) = sch.reverse := by
+    cases hr : sch.reverse with
+    | nil => rfl
+    | cons x xs =>
+      have hx : x ∈ sch := by rw [← List.mem_reverse, hr]; simp
+      have := (schemeChar_facts x (hsch x hx)).1
+      simp [List.dropWhile_cons]; omega
+  have hd3 : sch.filter (fun c => c ≠ 9 ∧ c ≠ 13 ∧ c ≠ 10) = sch := by
+    apply List.filter_eq_self.mpr
+    intro c hc
+    have := schemeChar_facts c (hsch c hc)
+    simp [this.2.1, this.2.2.1, this.2.2.2.1]
+  have hcol : cColon ∉ s := fun hm => (f _ hm).1 rfl
+  have hq : cQuest ∉ s := fun hm => (f _ hm).2.1 rfl
+  have hh : cHash ∉ s := fun hm => (f _ hm).2.2.1 rfl
+  have hnet : netlocOf s = ([], s) := by
+    unfold netlocOf
+    split
+    · exfalso; apply h2; simp [cSlash]
+    · rfl
+  unfold urlsplit
+  simp only [hdrop, hfilt, splitScheme, splitFirst_none _ _ hcol, hd1, hd2, List.reverse_reverse, hd3,
+    hnet, splitFirst_none _ _ hh, splitFirst_none _ _ hq]
+  simp
+
+theorem quoteSafe_noSemi (s : Str) (hs : QuoteSafe s) : s.contains cSemi = false := by
+  simp only [List.contains_eq_mem, decide_eq_false_iff_not]
+  intro hm
+  have := hs _ hm
+  simp [quoteSafe, cSemi, isAsciiAlpha, isDigit, cSlash, cPct] at this
+
+theorem urlparse_abs (sch net P d : Str) (w : WFOrigin sch net) (hP : QuoteSafe P) (hs : P.head? = some cSlash) :
+    urlparse (originStr sch net ++ P) d
+      = .ok { scheme := sch, netloc := net, path := P, params := [], query := [], fragment := [] } := by
+  have := quoteSafe_noSemi P hP
+  simp only [List.contains_eq_mem, decide_eq_false_iff_not] at this
+  simp [urlparse, urlsplit_abs sch net P d w hP hs, this]
+
+theorem urlparse_simple (s sch : Str) (hsch : ∀ c ∈ sch, isSchemeChar c = true) (hs : QuoteSafe s)
+    (h2 : s.take 2 ≠ [cSlash, cSlash]) :
+    urlparse s sch = .ok { scheme := sch, netloc := [], path := s, params := [], query := [], fragment := [] } := by
+  have := quoteSafe_noSemi s hs
+  simp only [List.contains_eq_mem, decide_eq_false_iff_not] at this
+  simp [urlparse, urlsplit_simple_dflt s sch hsch hs h2, this]
+
+theorem filterInterior_id : ∀ (a : Str) (rest : List Str), (∀ s ∈ rest, s ≠ []) → filterInterior (a :: rest) = a :: rest
+  | a, [], _ => rfl
+  | a, b :: l, h => by
+    simp only [filterInterior]
+    have h1 : (b :: l).dropLast.filter (· ≠ []) = (b :: l).dropLast := by
+      apply List.filter_eq_self.mpr
+      intro s hs
+      have := h s ((List.dropLast_sublist _).subset hs)
+      simp [this]
+    rw [h1]
+    have : (b :: l).dropLast ++ (b :: l).getLast?.toList = b :: l := by
+      rw [List.getLast?_eq_some_getLast (by simp)]
+      simp [List.dropLast_concat_getLast]
+    simp [this]
+
+/-- what `urlunsplit` does to a path when there is a host: a leading slash is supplied -/
+def slashed (p : Str) : Str := if p = [] then [cSlash] else if p.take 1 ≠ [cSlash] then cSlash :: p else p
+
+theorem cons_snoc_getLast (a : Str) : ∀ (l : List Str) (m : Str), (a :: (l ++ [m])).getLast? = some m
+  | [], m => by simp
+  | b :: l, m => by
+    have := cons_snoc_getLast b l m
+    simp only [List.cons_append, List.getLast?_cons_cons] at this ⊢
+    exact this
+
+theorem cons_snoc_dropLast (a : Str) : ∀ (l : List Str) (m : Str), (a :: (l ++ [m])).dropLast = a :: l
+  | [], m => by simp
+  | b :: l, m => by
+    have := cons_snoc_dropLast b l m
+    simp only [List.cons_append, List.dropLast_cons₂] at this ⊢
+    rw [this]
+
+theorem joinWith_nil_cons (c : Nat) (l : List Str) (h : l ≠ []) : joinWith c ([] :: l) = c :: joinWith c l := by
+  cases l with
+  | nil => exact absurd rfl h
+  | cons a t => simp [joinWith]
+
+theorem urlunsplit_host (sch net p : Str) (w : WFOrigin sch net) :
+    urlunsplit { scheme := sch, netloc := net, path := if p = [] then [cSlash] else p, query := [], fragment := [] }
+      = originStr sch net ++ slashed p := by
+  unfold slashed
+  by_cases hp : p = []
+  · simp [hp, urlunsplit, w.net_ne, w.sch_ne, originStr]
+  · by_cases h1 : p.take 1 = [cSlash]
+    · simp [hp, h1, urlunsplit, w.net_ne, w.sch_ne, originStr]
+    · simp [hp, h1, urlunsplit, w.net_ne, w.sch_ne, originStr]
+
+/-- **`urljoin` on strings**: base `scheme://host/T…/m`, relative reference `X…` of simple segments -/
+theorem urljoin_abs_rel (sch net : Str) (w : WFOrigin sch net) (Tdir X : List Str) (m : Str)
+    (hT : ∀ s ∈ Tdir, SimpleSeg s) (hm : SimpleSeg m) (hX : ∀ s ∈ X, SimpleSeg s) (hXne : X ≠ []) :
+    urljoin (originStr sch net ++ cSlash :: joinWith cSlash (Tdir ++ [m])) (joinWith cSlash X)
+      = .ok (originStr sch net ++ slashed (joinWith cSlash (rdsSegs (([] :: Tdir) ++ X)))) := by
+  have hTm : ∀ s ∈ Tdir ++ [m], SimpleSeg s := by
+    intro s hs
+    rcases List.mem_append.mp hs with h | h
+    · exact hT s h
+    · simp at h; subst h; exact hm
+  -- the base path
+  have hB : cSlash :: joinWith cSlash (Tdir ++ [m]) = joinWith cSlash ([] :: (Tdir ++ [m])) :=
+    (joinWith_nil_cons cSlash _ (by simp)).symm
+  have hBq : QuoteSafe (cSlash :: joinWith cSlash (Tdir ++ [m])) := by
+    intro c hc
+    rcases List.mem_cons.mp hc with rfl | hc
+    · decide
+    · exact simple_join_quoteSafe _ hTm c hc
+  have pb := urlparse_abs sch net (cSlash :: joinWith cSlash (Tdir ++ [m])) [] w hBq (by simp)
+  -- the reference
+  have jx := joinWith_simple X hXne hX
+  have pu := urlparse_simple (joinWith cSlash X) sch (fun c hc => (w.sch_chars c hc).1)
+    (simple_join_quoteSafe X hX) (take2_of_head _ jx.2.2)
+  have hbase_ne : originStr sch net ++ cSlash :: joinWith cSlash (Tdir ++ [m]) ≠ [] := by simp [originStr]
+  have hsplitB : splitOn cSlash (cSlash :: joinWith cSlash (Tdir ++ [m])) = [] :: (Tdir ++ [m]) := by
+    rw [hB]
+    apply splitOn_joinWith cSlash _ (by simp)
+    intro s hs
+    rcases List.mem_cons.mp hs with rfl | hs
+    · simp
+    · exact simple_noSlash s (hTm s hs)
+  have hsplitX : splitOn cSlash (joinWith cSlash X) = X :=
+    splitOn_joinWith cSlash X hXne (fun s hs => simple_noSlash s (hX s hs))
+  have htake : (joinWith cSlash X).take 1 ≠ [cSlash] := by
+    cases hj : joinWith cSlash X with
+    | nil => simp
+    | cons a b =>
+      have := jx.2.2
+      rw [hj] at this
+      simp at this ⊢
+      exact this
+  have hfi : filterInterior (([] :: Tdir) ++ X) = ([] :: Tdir) ++ X := by
+    apply filterInterior_id
+    intro s hs
+    rcases List.mem_append.mp hs with h | h
+    · exact (hT s h).1
+    · exact (hX s h).1
+  have hlast : ([] :: (Tdir ++ [m])).getLast? = some m := cons_snoc_getLast [] Tdir m
+  have hdl : ([] :: (Tdir ++ [m])).dropLast = [] :: Tdir := cons_snoc_dropLast [] Tdir m
+  unfold urljoin
+  simp only [hbase_ne, jx.1, ↓reduceIte, pb, pu, ne_eq, not_true_eq_false, w.sch_rel, not_true_eq_false,
+    or_self, w.sch_net, true_and, hsplitB, hlast, hdl, hsplitX, htake, hfi]
+  have hmne : m ≠ [] := hm.1
+  simp only [Option.some.injEq, hmne, not_false_eq_true, ↓reduceIte, false_and]
+  have hfi' : filterInterior ([] :: Tdir ++ X) = [] :: Tdir ++ X := hfi
+  simp only [urlunparse, hfi', ne_eq, not_true_eq_false, ↓reduceIte]
+  rw [urlunsplit_host sch net _ w]
+
+/-- the root's empty segment at the bottom of `urljoin`'s stack: present to the end, or popped once and for all -/
+theorem rds_bottom : ∀ (L st : List Str),
+    L.foldl rdsStep (st ++ [[]]) = L.foldl rdsStep st ++ [[]] ∨ L.foldl rdsStep (st ++ [[]]) = L.foldl rdsStep st
+  | [], st => Or.inl rfl
+  | c :: L, st => by
+    simp only [List.foldl_cons]
+    by_cases h1 : c = dotdot
+    · subst h1
+      simp only [rdsStep_dotdot]
+      cases st with
+      | nil => exact Or.inr (by simp)
+      | cons a t => simpa using rds_bottom L t
+    · by_cases h2 : c = dot
+      · subst h2
+        simp only [rdsStep_dot]
+        exact rds_bottom L st
+      · simp only [rdsStep_normal _ c ⟨h2, h1⟩]
+        simpa using rds_bottom L (c :: st)
+
+/-- everything on `urljoin`'s stack was pushed from the input or was there before -/
+theorem rds_stack_subset : ∀ (cs : List Str) (S : List Str), ∀ c ∈ cs.foldl rdsStep S, c ∈ S ∨ c ∈ cs
+  | [], S, c, h => Or.inl h
+  | x :: cs, S, c, h => by
+    rw [List.foldl_cons] at h
+    rcases rds_stack_subset cs _ c h with h | h
+    · unfold rdsStep at h
+      split at h
+      · exact Or.inl (List.mem_of_mem_tail h)
+      · split at h
+        · exact Or.inl h
+        · rcases List.mem_cons.mp h with rfl | h
+          · exact Or.inr (by simp)
+          · exact Or.inl h
+    · exact Or.inr (List.mem_cons_of_mem _ h)
+
+theorem slashed_simple (l : List Str) (hne : l ≠ []) (h : ∀ s ∈ l, SimpleSeg s) :
+    slashed (joinWith cSlash l) = cSlash :: joinWith cSlash l := by
+  have j := joinWith_simple l hne h
+  unfold slashed
+  have h1 : (joinWith cSlash l).take 1 ≠ [cSlash] := by
+    cases hj : joinWith cSlash l with
+    | nil => simp
+    | cons a b =>
+      have := j.2.2
+      rw [hj] at this
+      simp at this ⊢
+      exact this
+  simp [j.1, h1]
+
+theorem slashed_rooted (x : Str) : slashed (cSlash :: x) = cSlash :: x := by simp [slashed]
+
+theorem rdsSegs_last_normal (L : List Str) (f : Str) (hf : Normal f) :
+    rdsSegs (L ++ [f]) = ((L ++ [f]).foldl rdsStep []).reverse := by
+  unfold rdsSegs
+  have : (L ++ [f]).getLast? = some f := by simp
+  simp [this, hf.2.1, hf.2.2]
+
+/-- with or without the root's empty segment at the bottom, the path `urlunsplit` writes is the same -/
+theorem slashed_bottom (S Y : List Str) (f : Str) (hS : ∀ s ∈ S, SimpleSeg s) (hY : ∀ s ∈ Y, SimpleSeg s)
+    (hf : SimpleSeg f) (hfn : Normal f) :
+    slashed (joinWith cSlash (rdsSegs (S ++ (Y ++ [f])))) = slashed (joinWith cSlash (rdsSegs ([] :: S ++ (Y ++ [f])))) := by
+  have e1 : S ++ (Y ++ [f]) = (S ++ Y) ++ [f] := by simp
+  have e2 : [] :: S ++ (Y ++ [f]) = ([] :: (S ++ Y)) ++ [f] := by simp
+  rw [e1, e2, rdsSegs_last_normal _ f hfn, rdsSegs_last_normal _ f hfn]
+  -- the stack without the bottom
+  have hq : ∀ c ∈ ((S ++ Y) ++ [f]).foldl rdsStep [], SimpleSeg c := by
+    intro c hc
+    rcases rds_stack_subset _ [] c hc with h | h
+    · simp at h
+    · rcases List.mem_append.mp h with h | h
+      · rcases List.mem_append.mp h with h | h
+        · exact hS c h
+        · exact hY c h
+      · simp at h; subst h; exact hf
+  have hqne : ((S ++ Y) ++ [f]).foldl rdsStep [] ≠ [] := by
+    rw [List.foldl_append]
+    simp [rdsStep_normal _ f ⟨hfn.2.1, hfn.2.2⟩]
+  have hb : (([] :: (S ++ Y)) ++ [f]).foldl rdsStep [] = ((S ++ Y) ++ [f]).foldl rdsStep ([] ++ [[]]) := by
+    simp [List.foldl_cons, rdsStep, dot, dotdot]
+  rw [hb]
+  rcases rds_bottom ((S ++ Y) ++ [f]) [] with h | h
+  · rw [h]
+    simp only [List.reverse_append, List.reverse_cons, List.reverse_nil, List.nil_append, List.singleton_append]
+    rw [joinWith_nil_cons cSlash _ (by simpa using hqne), slashed_rooted]
+    exact slashed_simple _ (by simpa using hqne) (fun s hs => hq s (by simpa using hs))
+  · rw [h]
+
+/-- the URL of the imported sheet: `urljoin(base, "D…/g")` is again of the shape `origin/T'…/g` -/
+theorem urljoin_import (sch net : Str) (w : WFOrigin sch net) (Tdir D : List Str) (m g : Str)
+    (hT : ∀ s ∈ Tdir, SimpleSeg s) (hm : SimpleSeg m) (hD : ∀ s ∈ D, SimpleSeg s) (hg : SimpleSeg g) (hgn : Normal g) :
+    ∃ Tdir' : List Str, (∀ s ∈ Tdir', SimpleSeg s) ∧
+      urljoin (originStr sch net ++ cSlash :: joinWith cSlash (Tdir ++ [m])) (joinWith cSlash (D ++ [g]))
+        = .ok (originStr sch net ++ cSlash :: joinWith cSlash (Tdir' ++ [g])) ∧
+      (rdsSegs (([] :: Tdir) ++ D ++ [g])).dropLast = Tdir' ∨
+      (∀ s ∈ Tdir', SimpleSeg s) ∧
+      urljoin (originStr sch net ++ cSlash :: joinWith cSlash (Tdir ++ [m])) (joinWith cSlash (D ++ [g]))
+        = .ok (originStr sch net ++ cSlash :: joinWith cSlash (Tdir' ++ [g])) ∧
+      (rdsSegs (([] :: Tdir) ++ D ++ [g])).dropLast = [] :: Tdir' := by
+  have hDg : ∀ s ∈ D ++ [g], SimpleSeg s := by
+    intro s hs
+    rcases List.mem_append.mp hs with h | h
+    · exact hD s h
+    · simp at h; subst h; exact hg
+  have hj := urljoin_abs_rel sch net w Tdir (D ++ [g]) m hT hm hDg (by simp)
+  -- the stack after the directory part
+  let R := (Tdir ++ D).foldl rdsStep []
+  have hR : ∀ c ∈ R, SimpleSeg c := by
+    intro c hc
+    rcases rds_stack_subset _ [] c hc with h | h
+    · simp at h
+    · rcases List.mem_append.mp h with h | h
+      · exact hT c h
+      · exact hD c h
+  have hdir : (rdsSegs (([] :: Tdir) ++ D ++ [g])).dropLast = ((([] :: Tdir) ++ D).foldl rdsStep []).reverse :=
+    rdsSegs_dir ([] :: Tdir) D g hgn
+  have hb : (([] :: Tdir) ++ D).foldl rdsStep [] = (Tdir ++ D).foldl rdsStep ([] ++ [[]]) := by
+    simp [List.foldl_cons, rdsStep, dot, dotdot]
+  have hsegs : rdsSegs (([] :: Tdir) ++ (D ++ [g])) = ((([] :: Tdir) ++ D).foldl rdsStep []).reverse ++ [g] := by
+    have e : ([] :: Tdir) ++ (D ++ [g]) = (([] :: Tdir) ++ D) ++ [g] := by simp
+    rw [e, rdsSegs_last_normal _ g hgn, List.foldl_append]
+    simp [rdsStep_normal _ g ⟨hgn.2.1, hgn.2.2⟩]
+  refine ⟨R.reverse, ?_⟩
+  have hRr : ∀ s ∈ R.reverse, SimpleSeg s := fun s hs => hR s (List.mem_reverse.mp hs)
+  have hRg : ∀ s ∈ R.reverse ++ [g], SimpleSeg s := by
+    intro s hs
+    rcases List.mem_append.mp hs with h | h
+    · exact hRr s h
+    · simp at h; subst h; exact hg
+  rcases rds_bottom (Tdir ++ D) [] with h | h
+  · -- the root segment is still there
+    right
+    refine ⟨hRr, ?_, ?_⟩
+    · rw [hj, hsegs, hb, h]
+      simp only [List.nil_append, List.reverse_append, List.reverse_cons, List.reverse_nil, List.singleton_append,
+        List.cons_append]
+      rw [joinWith_nil_cons cSlash _ (by simp), slashed_rooted]
+    · rw [hdir, hb, h]; simp [R]
+  · left
+    refine ⟨hRr, ?_, ?_⟩
+    · rw [hj, hsegs, hb, h]
+      rw [slashed_simple _ (by simp) hRg]
+    · rw [hdir, hb, h]
+
+theorem rebased_segs (T D U : List Str) (g f : Str)
+    (hD : ∀ c ∈ D, c ≠ []) (hU : ∀ c ∈ U, c ≠ []) (hg : Normal g) (hf : Normal f) :
+    rdsSegs (T ++ normComps false (D ++ U ++ [f]))
+      = rdsSegs ((rdsSegs (T ++ D ++ [g])).dropLast ++ (U ++ [f])) := by
+  rw [rdsSegs_two_step T D (U ++ [f]) g hg (by simp)]
+  have h : ∀ c ∈ D ++ U, c ≠ [] := by
+    intro c hc
+    rcases List.mem_append.mp hc with hc | hc
+    · exact hD c hc
+    · exact hU c hc
+  have := rdsSegs_norm T (D ++ U) f h hf
+  simpa [List.append_assoc] using this
+
+/-- **T19.2 on strings.** Main sheet at `scheme://host/T…/m`, `@import "D…/g"`, `url(U…/f)` in the imported sheet,
+all segments simple (unreserved characters and `%`; `.` and `..` allowed in `D` and `U`; `g`, `f` names):
+`urljoin(main, Replacer(href)(url)) = urljoin(urljoin(main, href), url)` — the re-based URL resolves, from the
+combined sheet, to the absolute URL the original resolved to from the imported sheet. -/
+theorem rebase_resolves_strings (sch net : Str) (w : WFOrigin sch net) (Tdir D U : List Str) (m g f : Str)
+    (hT : ∀ s ∈ Tdir, SimpleSeg s) (hm : SimpleSeg m) (hD : ∀ s ∈ D, SimpleSeg s) (hg : SimpleSeg g) (hgn : Normal g)
+    (hU : ∀ s ∈ U, SimpleSeg s) (hf : SimpleSeg f) (hfn : Normal f) :
+    ∃ r sheetUrl,
+      replacer (joinWith cSlash (D ++ [g])) (joinWith cSlash (U ++ [f])) = .ok r ∧
+      urljoin (originStr sch net ++ cSlash :: joinWith cSlash (Tdir ++ [m])) (joinWith cSlash (D ++ [g])) = .ok sheetUrl ∧
+      urljoin (originStr sch net ++ cSlash :: joinWith cSlash (Tdir ++ [m])) r
+        = urljoin sheetUrl (joinWith cSlash (U ++ [f])) := by
+  have hUf : ∀ s ∈ U ++ [f], SimpleSeg s := by
+    intro s hs
+    rcases List.mem_append.mp hs with h | h
+    · exact hU s h
+    · simp at h; subst h; exact hf
+  have hall : ∀ s ∈ D ++ U ++ [f], SimpleSeg s := by
+    intro s hs
+    rcases List.mem_append.mp hs with h | h
+    · rcases List.mem_append.mp h with h | h
+      · exact hD s h
+      · exact hU s h
+    · simp at h; subst h; exact hf
+  -- 1. the re-based URL
+  have hr := replacer_on_segments D U g f hD hU hg hf hfn
+  have hN : ∀ s ∈ normComps false (D ++ U ++ [f]), SimpleSeg s := fun s hs => hall s (normComps_subset false _ s hs)
+  have hNne : normComps false (D ++ U ++ [f]) ≠ [] := by
+    intro e
+    have := normComps_getLast false (D ++ U) f hfn
+    rw [e] at this; simp at this
+  -- 2. resolved from the main sheet
+  have h2 := urljoin_abs_rel sch net w Tdir (normComps false (D ++ U ++ [f])) m hT hm hN hNne
+  -- the path algebra
+  have halg := rebased_segs ([] :: Tdir) D U g f (fun c hc => (hD c hc).1) (fun c hc => (hU c hc).1) hgn hfn
+  -- 3. the URL of the imported sheet
+  obtain ⟨Tdir', hcases⟩ := urljoin_import sch net w Tdir D m g hT hm hD hg hgn
+  rcases hcases with ⟨hT', h3, hdl⟩ | ⟨hT', h3, hdl⟩
+  · -- the root segment had been popped: the stacks differ by the bottom only
+    refine ⟨_, _, hr, h3, ?_⟩
+    have h4 := urljoin_abs_rel sch net w Tdir' (U ++ [f]) g hT' hg hUf (by simp)
+    rw [h2, h4, halg, hdl]
+    congr 2
+    exact slashed_bottom Tdir' U f hT' hU hf hfn
+  · refine ⟨_, _, hr, h3, ?_⟩
+    have h4 := urljoin_abs_rel sch net w Tdir' (U ++ [f]) g hT' hg hUf (by simp)
+    rw [h2, h4, halg, hdl]
+
+
 end CssVerif.Urls
